@@ -66,7 +66,7 @@ Proof.
       split; try (f_equal; assumption); assumption.
 Qed.
 
-Lemma wf_indices_package : forall ty voi ivs es, wf_indices (package ty voi ivs es) = true.
+Lemma wf_indices_package : forall s ty voi ivs es, wf_indices (package s ty voi ivs es) = true.
 Proof.
   intros. unfold wf_indices, package. cbn [r_states r_vars].
   match goal with |- context [make_avars ?a ?b 0 0 0] => destruct (make_avars_indices a b 0 0 0) as (H1 & H2) end.
@@ -1241,7 +1241,7 @@ Qed.
 
 Lemma wf_classes_package : forall s ty voi ivs es,
   iv_inv s voi ivs -> Forall (fun v => final_type (iv_type v) = true) ivs ->
-  wf_classes s (package ty voi ivs es) = true.
+  wf_classes s (package s ty voi ivs es) = true.
 Proof.
   intros s ty voi ivs es (Hok & Hcov & Hvc & Hvd & Hne) Hfin.
   unfold package. set (es3 := es ++ _). set (avs := make_avars es3 ivs 0 0 0).
